@@ -352,4 +352,5 @@ def main(prop, tier):
 
 
 if __name__ == "__main__":
-    sys.exit(main(sys.argv[1], sys.argv[2] if len(sys.argv) > 2 else "quick"))
+    from .common import guarded
+    sys.exit(guarded(sys.argv[1], sys.argv[2] if len(sys.argv) > 2 else "quick", lambda: main(sys.argv[1], sys.argv[2] if len(sys.argv) > 2 else "quick")))
